@@ -3326,7 +3326,9 @@ The what argument tells us what sort of state is expected (allowed values are de
         if recursive:
             tbl = product.getTable()
             if tbl:
-                deps += tbl.dependencies(self)
+                # the table also lists the dependencies that could not be resolved (e.g. an optional product
+                # that isn't installed); they aren't declared, so there's nothing to remove
+                deps += [dep for dep in tbl.dependencies(self) if self.findProduct(dep[0].name, dep[0].version)]
 
         productsToRemove = []
         for product, o, recursionDepth in deps:
